@@ -40,6 +40,16 @@ pub struct Scenario {
     /// executed once per process before the first run (initialises lazy statics of the code
     /// under test so that the first run of a process does not differ from the others)
     pub warmup: Option<fn()>,
+    /// an enumerable sub-space of the property's quantifier, exhausted in the thorough tier
+    /// before the seeded search starts (run indexes 0..count are these cases)
+    pub enumerated: Option<Enumerated>,
+}
+
+#[derive(Clone, Copy)]
+pub struct Enumerated {
+    pub count: fn() -> u64,
+    pub run: fn(&mut Ctx, u64) -> Verdict,
+    pub what: &'static str,
 }
 
 pub const DEFAULT_SEED: u64 = 20261003;
@@ -153,6 +163,11 @@ pub enum Exec {
 static WARMUP: std::sync::Once = std::sync::Once::new();
 
 pub fn exec_run(sc: &Scenario, tape: Tape, trace_on: bool, want_sample: bool) -> Exec {
+    exec_run_case(sc, tape, trace_on, want_sample, None)
+}
+
+/// `case = Some(i)`: execute the i-th enumerated case instead of a seeded run.
+pub fn exec_run_case(sc: &Scenario, tape: Tape, trace_on: bool, want_sample: bool, case: Option<u64>) -> Exec {
     if let Some(w) = sc.warmup {
         WARMUP.call_once(|| {
             // Several sequential threads: the regex crate keeps its per-regex caches in
@@ -173,6 +188,7 @@ pub fn exec_run(sc: &Scenario, tape: Tape, trace_on: bool, want_sample: bool) ->
         });
     }
     let run = sc.run;
+    let enum_run = sc.enumerated.map(|e| e.run);
     let panic_is_violation = sc.panic_is_violation;
     let (tx, rx) = mpsc::channel();
     let handle = std::thread::Builder::new()
@@ -186,7 +202,10 @@ pub fn exec_run(sc: &Scenario, tape: Tape, trace_on: bool, want_sample: bool) ->
             crate::hashseed::set_thread_hash_seed(hs);
             PANIC_INFO.with(|p| *p.borrow_mut() = None);
             set_panic_context("");
-            let res = std::panic::catch_unwind(std::panic::AssertUnwindSafe(|| run(&mut ctx)));
+            let res = std::panic::catch_unwind(std::panic::AssertUnwindSafe(|| match (case, enum_run) {
+                (Some(i), Some(er)) => er(&mut ctx, i),
+                _ => run(&mut ctx),
+            }));
             let mut harness_error = None;
             let verdict = match res {
                 Ok(v) => v,
@@ -448,6 +467,29 @@ fn known_match<'a>(known: &'a [Known], prop: &str, oracle: &str, msg: &str) -> O
 // ---------------------------------------------------------------------------------------------
 // replay files
 
+#[allow(clippy::too_many_arguments)]
+pub fn write_replay_case(
+    path: &Path,
+    sc: &Scenario,
+    bin: &str,
+    seed: u64,
+    idx: u64,
+    v: &Violation,
+    tape: Option<&[u64]>,
+    trace: &[String],
+    note: &str,
+    case: Option<u64>,
+) -> std::io::Result<()> {
+    write_replay(path, sc, bin, seed, idx, v, tape, trace, note)?;
+    if let Some(c) = case {
+        let txt = std::fs::read_to_string(path)?;
+        let mut j: Value = serde_json::from_str(&txt).map_err(std::io::Error::other)?;
+        j["enum_case"] = json!(c);
+        std::fs::write(path, serde_json::to_string_pretty(&j).unwrap())?;
+    }
+    Ok(())
+}
+
 pub fn write_replay(
     path: &Path,
     sc: &Scenario,
@@ -537,8 +579,9 @@ fn cmd_replay(scenarios: &[Scenario], path: &str) -> i32 {
             Tape::record(mix(seed, sc.tag, idx))
         }
     };
-    println!("replaying {path}: property={prop} expected oracle={oracle}");
-    match exec_run(sc, tape, true, true) {
+    let case = v["enum_case"].as_u64();
+    println!("replaying {path}: property={prop} expected oracle={oracle}{}", case.map_or(String::new(), |c| format!(" (enumerated case {c})")));
+    match exec_run_case(sc, tape, true, true, case) {
         Exec::Hang => {
             println!("run exceeded the watchdog ({} s)", sc.run_timeout_s);
             if oracle == "hang" {
@@ -613,6 +656,8 @@ struct WorkerArgs {
     id: String,
     hashes: bool,
     verif_dir: PathBuf,
+    /// run indexes below this are enumerated cases
+    enum_n: u64,
 }
 
 fn cmd_worker(scenarios: &[Scenario], a: WorkerArgs) -> i32 {
@@ -664,7 +709,8 @@ fn cmd_worker(scenarios: &[Scenario], a: WorkerArgs) -> i32 {
         }
         let seed = mix(a.seed, sc.tag, idx);
         let want_sample = st.samples.len() < 2;
-        let out = match exec_run(sc, Tape::record(seed), false, want_sample) {
+        let case = if idx < a.enum_n { Some(idx) } else { None };
+        let out = match exec_run_case(sc, Tape::record(seed), false, want_sample, case) {
             Exec::Done(o) => o,
             Exec::Hang => {
                 // cannot kill the thread: report and leave, the parent resumes after idx
@@ -718,9 +764,14 @@ fn cmd_worker(scenarios: &[Scenario], a: WorkerArgs) -> i32 {
             if let Some(k) = known_match(&known, sc.property, &v.oracle, &v.msg) {
                 *st.known_hits.entry(k.what.clone()).or_insert(0) += 1;
             } else if seen_oracles.insert(v.oracle.clone()) && found.len() < 6 {
-                let (min_tape, used) = shrink(sc, out.tape.clone(), &v.oracle);
+                // an enumerated case is already a minimal single-edit input: no shrinking
+                let (min_tape, used) = if case.is_some() {
+                    (out.tape.clone(), 0)
+                } else {
+                    shrink(sc, out.tape.clone(), &v.oracle)
+                };
                 // re-run minimised tape with tracing for the replay file
-                let (v2, trace) = match exec_run(sc, Tape::replay(min_tape.clone()), true, true) {
+                let (v2, trace) = match exec_run_case(sc, Tape::replay(min_tape.clone()), true, true, case) {
                     Exec::Done(o) => match o.verdict {
                         Err(v2) if v2.oracle == v.oracle => (v2, o.trace),
                         _ => (v.clone(), vec!["(minimised tape did not reproduce in-process; original kept)".into()]),
@@ -741,8 +792,12 @@ fn cmd_worker(scenarios: &[Scenario], a: WorkerArgs) -> i32 {
                     min_tape.len(),
                     used
                 );
+                let note = match case {
+                    Some(i) => format!("enumerated case {i} ({}); not a seeded run", sc.enumerated.map_or("", |e| e.what)),
+                    None => note,
+                };
                 if let Err(e) =
-                    write_replay(&path, sc, &bin, a.seed, idx, &v2, Some(&min_tape), &trace, &note)
+                    write_replay_case(&path, sc, &bin, a.seed, idx, &v2, Some(&min_tape), &trace, &note, case)
                 {
                     st.harness_errors.push(format!("cannot write replay: {e}"));
                 }
@@ -849,6 +904,20 @@ fn spawn_worker(
     id: &str,
     hashes: bool,
 ) -> std::io::Result<Spawned> {
+    spawn_worker_enum(prop, seed, from, to, out, id, hashes, 0)
+}
+
+#[allow(clippy::too_many_arguments)]
+fn spawn_worker_enum(
+    prop: &str,
+    seed: u64,
+    from: u64,
+    to: u64,
+    out: &Path,
+    id: &str,
+    hashes: bool,
+    enum_n: u64,
+) -> std::io::Result<Spawned> {
     let exe = std::env::current_exe()?;
     let mut c = Command::new(exe);
     c.arg("worker")
@@ -865,6 +934,9 @@ fn spawn_worker(
         .arg(id);
     if hashes {
         c.arg("--hashes");
+    }
+    if enum_n > 0 {
+        c.arg("--enum").arg(enum_n.to_string());
     }
     // workers report through files; whatever the code under test prints is dropped
     c.stdin(Stdio::null());
@@ -993,11 +1065,17 @@ fn cmd_check(scenarios: &[Scenario], prop: &str, tier: &str) -> i32 {
     }
     let thorough = tier == "thorough";
     let seed = env_u64("VERIF_SEED").unwrap_or(DEFAULT_SEED);
-    let runs = env_u64("VERIF_RUNS").unwrap_or(if thorough {
+    let seeded_runs = env_u64("VERIF_RUNS").unwrap_or(if thorough {
         sc.thorough_runs
     } else {
         sc.quick_runs
     });
+    // thorough tier: the enumerated sub-space comes first (run indexes 0..enum_n)
+    let enum_n = match (thorough, sc.enumerated) {
+        (true, Some(e)) if std::env::var_os("VERIF_NO_ENUM").is_none() => (e.count)(),
+        _ => 0,
+    };
+    let runs = seeded_runs + enum_n;
     let nproc = std::thread::available_parallelism().map(|n| n.get()).unwrap_or(4) as u64;
     let workers = env_u64("VERIF_WORKERS").unwrap_or(nproc.min(16)).clamp(1, 64).min(runs.max(1));
     let vdir = verif_dir();
@@ -1020,8 +1098,11 @@ fn cmd_check(scenarios: &[Scenario], prop: &str, tier: &str) -> i32 {
     let mut harness_fail: Option<String> = None;
 
     // (from, to) work items; a worker death splits its item
-    let per = runs.div_ceil(workers);
-    let mut pending: Vec<(u64, u64)> = (0..workers)
+    // several chunks per worker slot: cheap dynamic balancing (enumerated cases, deep-nesting
+    // documents and index-boundary runs have very different costs)
+    let n_chunks = if runs >= 200_000 { workers * 6 } else { workers };
+    let per = runs.div_ceil(n_chunks).max(1);
+    let mut pending: Vec<(u64, u64)> = (0..n_chunks)
         .map(|w| (w * per, ((w + 1) * per).min(runs)))
         .filter(|(a, b)| a < b)
         .collect();
@@ -1032,7 +1113,7 @@ fn cmd_check(scenarios: &[Scenario], prop: &str, tier: &str) -> i32 {
             let (a, b) = pending.remove(0);
             let id = format!("w{wcount}");
             wcount += 1;
-            match spawn_worker(prop, seed, a, b, &out, &id, false) {
+            match spawn_worker_enum(prop, seed, a, b, &out, &id, false, enum_n) {
                 Ok(s) => running.push(s),
                 Err(e) => {
                     harness_fail = Some(format!("cannot spawn worker: {e}"));
@@ -1094,7 +1175,7 @@ fn cmd_check(scenarios: &[Scenario], prop: &str, tier: &str) -> i32 {
     let mut violations: Vec<Found> = vec![];
     for (at, why, note) in &deaths {
         let id = format!("confirm{at}");
-        let confirmed = match spawn_worker(prop, seed, *at, at + 1, &out, &id, false) {
+        let confirmed = match spawn_worker_enum(prop, seed, *at, at + 1, &out, &id, false, enum_n) {
             Ok(mut s) => match s.child.wait() {
                 Ok(st) => st.code() != Some(0) && st.code() != Some(2),
                 Err(_) => false,
@@ -1223,6 +1304,8 @@ fn cmd_check(scenarios: &[Scenario], prop: &str, tier: &str) -> i32 {
             "real_components": sc.real_components,
             "stub_components": sc.stub_components,
             "workers": workers,
+            "enumerated_cases": enum_n,
+            "enumerated_space": sc.enumerated.map_or("", |e| e.what),
             "known_findings_hit": m.known_hits,
             "exhaustive": false,
         },
@@ -1379,6 +1462,7 @@ pub fn main_with(scenarios: &[Scenario]) -> ! {
                 id: get("--id").unwrap_or_else(|| "w".into()),
                 hashes: args.iter().any(|a| a == "--hashes"),
                 verif_dir: verif_dir(),
+                enum_n: get("--enum").and_then(|s| s.parse().ok()).unwrap_or(0),
             };
             cmd_worker(scenarios, a)
         }
